@@ -46,6 +46,12 @@ impl ValueEnvironment {
         }
     }
 
+    /// Mark the variable as not constant. No value is recorded for it from here on.
+    pub fn set_non_constant(&mut self, name: &VariableName) {
+        self.reduces_to.remove(name);
+        self.non_constant.insert(name.clone());
+    }
+
     #[must_use]
     pub fn get_variable(&self, name: &VariableName) -> Option<&ValueReduction> {
         self.reduces_to.get(name)
